@@ -126,6 +126,8 @@ fn gen_vec(rng: &mut Rng, n: usize, regime: u64) -> Vec<f32> {
                     _ => rand_f32(rng, -3, 3),
                 }
             }
+            8 => rand_f32(rng, 60, 66),                   // huge: a difference squared leaves the f32 range, not the f64 range
+            9 => rand_f32(rng, -70, -60),                 // minute: a difference squared underflows in f32, not in f64
             6 => {
                 // all equal components (cancellation in a-b, sign patterns)
                 if i % 2 == 0 { 1.5 } else { -1.5 }
@@ -468,7 +470,7 @@ fn gen_sql_cases(ctx: &Ctx, rng: &mut Rng) -> Vec<SqlCase> {
     for t in 0..ntables {
         // every dimension 1..70 is used at least twice per run
         let n = if t < 140 { 1 + (t % 70) } else { 1 + rng.below(70) as usize };
-        let regime = [0u64, 1, 2, 3, 4, 5, 7][rng.below(7) as usize];
+        let regime = if t % 10 == 9 { [8u64, 9][(t / 10) % 2] } else { [0u64, 1, 2, 3, 4, 5, 7][rng.below(7) as usize] };
         let nrows = 2 + rng.below(13) as usize;
         let mut rows: Vec<Vec<f32>> = (0..nrows).map(|_| gen_vec(rng, n, regime)).collect();
         // ties: duplicates and mirror images at the same distance from the origin
@@ -696,7 +698,7 @@ pub fn run(ctx: &Ctx) -> Report {
     let mut rep = Report::new(
         "vecdist",
         "kernels: every length 0..72 (thorough 0..160) x 8 value regimes (small ints, quarter grid, unit scale with full \
-         mantissas, large 2^10..2^25, tiny 2^-25..2^-10, mixed incl. zeros, alternating signs, large offset + small \
+         mantissas, large 2^10..2^25, tiny 2^-25..2^-10, (SQL layer only: huge 2^60..2^66 and minute 2^-70..2^-60, whose squared differences leave the f32 range) mixed incl. zeros, alternating signs, large offset + small \
          perturbation) x {identical, zero, random} second operand, plus one-hot and all-but-one probes at EVERY index of \
          every length; each through scalar, AVX2 (if detected) and the dispatch functions; oracle |impl-exact| <= \
          gamma_(n+3)*sum|terms| with exact dyadic arithmetic (cosine: (2(n+3)+8)u absolute), only where no overflow/underflow \
